@@ -272,6 +272,14 @@ func c03Programs(c *vc.Ctx, emit func(c03Prog)) {
 	if only == "corpus" {
 		return
 	}
+	if m := os.Getenv("VERIF_C03_MATCH"); m != "" { // development aid: only templates containing m
+		inner := emit
+		emit = func(p c03Prog) {
+			if strings.Contains(p.Tmpl, m) {
+				inner(p)
+			}
+		}
+	}
 	b := c03GetBounds(c)
 	layouts := func(t string, wrapped bool, full bool) {
 		tt := t
